@@ -177,8 +177,15 @@ def mw_c06(tier):
                 J.append(('|'.join([a, b, '@2 A B']), 3, 0))
     return J
 
+# a timed-out conditional wait that acquires through the timeout path must leave no queue bits behind: a plain
+# locker arriving later on the then free (or read-held) mutex must get it
+MW_FREE_MUTEX = ['Mr1d|@1 Z|R', 'Mr1d|@1 Z|@1 R', 'Mw1d|@1 Z|R', 'Mr1d|Z|R', 'Mr1p|Z|R', 'Mr1d|@1 Z|Z', 'Mr1x|@1 Z|R', 'Mr1d|@1 R|R']
+MW_FREE_MUTEX4 = ['Mr1d|Mr1|@2 Z|R', 'Mw1d|Mr1|@2 Z|R', 'Mr1d|Mw2|@2 Z|R', 'Mr1d|Mr1d|@2 Z|R']
+
 def mw_c05(tier):
     J = []
+    for p in MW_FREE_MUTEX: J.append((p, 2 if tier == 'quick' else 3, 1))
+    for p in MW_FREE_MUTEX4: J.append((p, 1 if tier == 'quick' else 2, 1))
     Pq = 3 if tier == 'quick' else 5
     for a in ['Mw1d', 'Mr1d', 'Mw1p', 'Mr1p', 'Mw1N', 'Mr1N', 'Mw1x', 'Mr1x', 'Mw1dN', 'Mw1px', 'Mw3d']:
         for k in ['A', 'Z', 'R', '@1 A', '@1 Z', 'B']:
